@@ -29,6 +29,15 @@ def boxes(tier, rng):
         for w in itertools.product(range(0, 3), repeat=4):
             d4.append([list(mins), [m + x for m, x in zip(mins, w)]])
     out += rng.sample(d4, 40 if tier == "quick" else 600)
+    # bounds at and around integer type limits (narrow boxes far from the origin, and wide 1-dimensional ones)
+    for b in (127, 128, 255, 256, 32767, 32768, 65535, 65536, 2 ** 31 - 6):
+        out.append([[b - 2], [b + 1]])
+        out.append([[-b - 1], [-b + 2]])
+        out.append([[0, b - 1], [1, b + 1]])
+    for b in (127, 128, 129, 255, 256, 257):
+        out.append([[0], [b]])
+        out.append([[-b], [0]])
+        out.append([[0, 0], [1, b]])
     return out
 
 
